@@ -1,23 +1,28 @@
 // C09 — malformed requests and tokens yield an error response, never a panic.
 //
-// Three fronts (DESIGN.md section 6, C09), each in its own file:
+// Three fronts (DESIGN.md section 6, C09), each in its own package:
 //
-//	front_http.go    (a) HTTP grammar fuzzing of both routers
-//	front_docs.go    (b) token / JSON documents fed to decoders, verifiers and — signed by a trusted key — to the endpoints
-//	front_client.go  (c) hostile provider answers fed to the client-side helpers
+//	fronthttp    (a) HTTP grammar fuzzing of both routers
+//	frontdocs    (b) token / JSON documents fed to decoders, verifiers and — signed by a trusted key — to the endpoints
+//	frontclient  (c) hostile provider answers fed to the client-side helpers
 //
 // Every front records into the same ev.Run; violation keys are "C09:<front>:<class>".
 package main
 
-import "verif/internal/ev"
+import (
+	"verif/checks/c09/frontclient"
+	"verif/checks/c09/frontdocs"
+	"verif/checks/c09/fronthttp"
+	"verif/internal/ev"
+)
 
 func main() {
 	run := ev.Start("C09", "exploration")
 	run.SetRule("three fronts: (a) generated HTTP requests against both routers, (b) generated JSON/token documents against decoders, verifiers and endpoints, (c) generated provider answers against the client helpers; a case is non-trivial when it reached library code beyond routing (a handler wrote a response / a decoder or helper returned); distinct = distinct (front, target, input class, outcome class) vectors")
 	run.Assume("handlers are called in-process (a panic is not converted into a dropped connection by net/http)",
 		"a panic is attributed by its stack: first non-runtime frame under the library tree = violation, under /verif = harness bug (inconclusive)")
-	frontHTTP(run)
-	frontDocs(run)
-	frontClient(run)
+	fronthttp.Run(run)
+	frontdocs.Run(run)
+	frontclient.Run(run)
 	run.Finish()
 }
